@@ -467,7 +467,7 @@ class VF:
                     if isinstance(pv, T.Tm) and T.is_app(pv, 'opt'):
                         pv = pv[2][1]       # payload of a modelled option (v.get(i) -> v[i], a.checked_sub(b) -> a - b)
                 else:
-                    pv = T.app('payload:' + pat['variant'], self.to_term(val)) if not isinstance(val, Tup) else val
+                    pv = variant_payload(pat['variant'], self.to_term(val), sp.get('name', sp.get('idx', 0))) if not isinstance(val, Tup) else val
                 self.bind(sp['pat'], pv)
         elif k == 'Constant':
             pass
@@ -1321,13 +1321,76 @@ class VF:
         """`let mut c = c0; while c < N { body; c += 1 }` (N invariant, one exit at the head, counter stepped once and unconditionally)
         is the counted loop `for k in 0..N-c0` with c = c0 + k: give it the summary of a for-loop so that every rule about counted
         loops applies to either spelling."""
-        if ls.kind != 'loop' or len(ls.exits) != 1 or ls.exits[0][0] != 'break' or ls.n is not None:
+        if ls.kind != 'loop' or not ls.exits or ls.n is not None:
+            return
+        if len(ls.exits) > 1 and ls.exit_states and len(ls.exit_states) == len(ls.exits):
+            # the exit at the loop head first (a `let .. else { break }` at the top records it after the exits of the code below it)
+            def at_head(i):
+                st_ = ls.exit_states[i] or {}
+                # (the position of a hand-advanced iterator has already moved when `next()` reports the end: past the end there is
+                # nothing to observe, so that does not count as a change)
+                return ls.exits[i][0] == 'break' and ls.exits[i][2][0] == 'not' and all(v is ls.lh.get(k_) or k_[0][0] == 'cursor' for k_, v in st_.items() if k_ in ls.lh and isinstance(v, T.Tm))
+            heads = [i for i in range(len(ls.exits)) if at_head(i)]
+            if len(heads) == 1 and heads[0] != 0:
+                i = heads[0]
+                ls.exits.insert(0, ls.exits.pop(i))
+                ls.exit_states.insert(0, ls.exit_states.pop(i))
+        if ls.exits[0][0] != 'break':
+            return
+        # further exits are allowed only for the hand-advanced-iterator spelling of a `for` with a `break` in it
+        # (`loop { let Some(x) = it.next() else { break }; .. if c { break } .. }`): they stay exits of the counted loop
+        extra_exits = list(zip(ls.exits[1:], ls.exit_states[1:] if ls.exit_states else []))
+        if extra_exits and not any(k_[0][0] == 'cursor' and ls.next.get(k_) is T.add(ls.lh[k_], T.ONE) for k_ in ls.lh if isinstance(k_[0], tuple)):
             return
         st = ls.exit_states[0] if ls.exit_states else {}
-        if any(v is not ls.lh.get(k) for k, v in (st or {}).items() if k in ls.lh and isinstance(v, T.Tm)):
+        if any(v is not ls.lh.get(k) and not (isinstance(k[0], tuple) and k[0][0] == 'cursor') for k, v in (st or {}).items() if k in ls.lh and isinstance(v, T.Tm)):
             return                      # the exit is not at the loop head
         lhs = set(ls.lh.values())
         cond = ls.exits[0][2]
+        # count-down: `let mut c = N; while c > 0 { c -= 1; body }` is `for k in 0..N` with c = N - k at the head
+        for k, lh in ls.lh.items():
+            nx, c0 = ls.next.get(k), ls.init.get(k)
+            if isinstance(nx, T.Tm) and isinstance(c0, T.Tm) and nx is T.sub(lh, T.ONE) and cond is T.lnot(T.cmp('gt', lh, T.ZERO)) and not any(x in lhs for x in T.subterms(c0)):
+                it = T.sym('it%d' % ls.uid)
+                m = {lh: T.sub(c0, it)}
+                cont = T.cmp('gt', T.sub(c0, it), T.ZERO)
+                for k2 in list(ls.next):
+                    if isinstance(ls.next[k2], T.Tm) and k2 is not k:
+                        ls.next[k2] = T.subst(ls.next[k2], m)
+                for e in ls.events:
+                    e.args = [T.subst(a, m) if isinstance(a, T.Tm) else a for a in e.args]
+                    if isinstance(getattr(e, 'res', None), T.Tm):
+                        e.res = T.subst(e.res, m)
+                    e.pc = tuple(c2 for c2 in (T.subst(c, m) for c in e.pc) if c2 is not cont)
+                self.discipline[:] = [(d[0], T.subst(d[1], m) if isinstance(d[1], T.Tm) else d[1]) + tuple(d[2:]) for d in self.discipline]
+                ls.kind, ls.var, ls.n, ls.elem, ls.seq_desc = 'for', it, c0, it, 'range'
+                ls.counter_key = k
+                ls.exits, ls.exit_states = [], []
+                for dct in (ls.lh, ls.next, ls.init, ls.lx):
+                    dct.pop(k, None)
+                self.close_accumulators(ls)
+                return
+        # `while v.len() < N { v.push(x) }` from an empty vector: the length is the counter
+        for k, lh in ls.lh.items():
+            nx, c0 = ls.next.get(k), ls.init.get(k)
+            if isinstance(nx, T.Tm) and T.is_app(nx, 'push') and nx[2][0] is lh and c0 is T.app('array') and cond[0] == 'not' and cond[1][0] == 'cmp' and cond[1][1] == 'gt':
+                ln = T.app('len', lh)
+                N = T.add(cond[1][2], ln)
+                if not any(x in lhs for x in T.subterms(N)) and cond is T.lnot(T.cmp('lt', ln, N)):
+                    it = T.sym('it%d' % ls.uid)
+                    m = {ln: it}
+                    for k2 in list(ls.next):
+                        if isinstance(ls.next[k2], T.Tm):
+                            ls.next[k2] = T.subst(ls.next[k2], m)
+                    for e in ls.events:
+                        e.args = [T.subst(a, m) if isinstance(a, T.Tm) else a for a in e.args]
+                        if isinstance(getattr(e, 'res', None), T.Tm):
+                            e.res = T.subst(e.res, m)
+                        e.pc = tuple(c2 for c2 in (T.subst(c, m) for c in e.pc) if c2 is not T.cmp('lt', it, N))
+                    ls.kind, ls.var, ls.n, ls.elem, ls.seq_desc = 'for', it, N, it, 'range'
+                    ls.exits, ls.exit_states = [], []
+                    self.close_accumulators(ls)
+                    return
         for k, lh in ls.lh.items():
             nx, c0 = ls.next.get(k), ls.init.get(k)
             if not (isinstance(nx, T.Tm) and isinstance(c0, T.Tm) and nx is T.add(lh, T.ONE)):
@@ -1357,8 +1420,23 @@ class VF:
                 e.pc = tuple(c2 for c2 in (T.subst(c, m) for c in e.pc) if c2 is not cont)
             self.discipline[:] = [(d[0], T.subst(d[1], m) if isinstance(d[1], T.Tm) else d[1]) + tuple(d[2:]) for d in self.discipline]
             ls.kind, ls.var, ls.n, ls.elem, ls.seq_desc = 'for', it, T.sub(N, c0), T.add(c0, it), 'range'
+            if isinstance(k[0], tuple) and k[0][0] == 'cursor':
+                held = self.store.get((k[0][1], k[1]))
+                if isinstance(held, Seq):           # walking a sequence by hand is the `for` over that sequence
+                    ls.seq_desc = held.desc
+                    try:
+                        ls.elem = held.elem(T.add(c0, it))
+                    except Exception:
+                        pass
             ls.counter_key = k
-            ls.exits, ls.exit_states = [], []
+            def drop_cont(c):
+                c = T.subst(c, m) if isinstance(c, T.Tm) else c
+                if isinstance(c, T.Tm) and c[0] == 'and':
+                    rest = [x for x in c[1] if x is not cont]
+                    return T.land(*rest) if rest else T.TRUE
+                return c
+            ls.exits = [(kd, lb, drop_cont(c)) for (kd, lb, c), _ in extra_exits]
+            ls.exit_states = [{k3: (T.subst(v, m) if isinstance(v, T.Tm) else v) for k3, v in (st_ or {}).items()} for _, st_ in extra_exits]
             for dct in (ls.lh, ls.next, ls.init, ls.lx):      # the counter is the iteration variable now, not carried state
                 dct.pop(k, None)
             self.close_accumulators(ls)
@@ -1742,6 +1820,22 @@ class VF:
 
 
 # ---------------------------------------------------------------------- term helpers
+
+def variant_payload(variant, t, field):
+    """payload of `t` seen as `variant`: the constructor's field when the constructor is known (also through a choice between
+    known constructors: the arm of another variant cannot be reached where the pattern matched), else an opaque payload:<variant>(t)"""
+    if isinstance(t, T.Tm) and t[0] == 'ite':
+        a, b = variant_payload(variant, t[2], field), variant_payload(variant, t[3], field)
+        if not (T.is_app(a, 'payload:' + variant) or T.is_app(b, 'payload:' + variant)):
+            return T.ite(t[1], a, b)
+    if T.is_app(t) and t[1].startswith('adt:') and '::' in t[1]:
+        if t[1].rsplit('::', 1)[1] != variant:
+            return T.sym('unreachable:' + variant)
+        for f in t[2]:
+            if f[1] == 'f:' + str(field):
+                return f[2][0]
+    return T.app('payload:' + variant, t)
+
 
 def variant_test(variant, t):
     """`t` matches `variant`: bounds test for v.get(i), otherwise an uninterpreted is:<variant>(t)"""
